@@ -970,3 +970,33 @@ impl Headers {
         Ok((headers, split_message))
     }
 }
+
+/// Verification hook: expose the message / diff splitter.
+#[cfg(stgit_verif)]
+pub(crate) fn verif_split_patch(content: Vec<u8>) -> Option<(Vec<u8>, Vec<u8>)> {
+    split_patch(content)
+        .ok()
+        .map(|(message, diff)| (message.into(), diff.into()))
+}
+
+/// Verification hook: expose the header parser. Returns the six optional header
+/// values (patch name, author name, author e-mail, date, subject, message id) and
+/// the remaining message body.
+#[cfg(stgit_verif)]
+#[allow(clippy::type_complexity)]
+pub(crate) fn verif_parse_message(message: &[u8]) -> Option<([Option<String>; 6], Vec<u8>)> {
+    use bstr::ByteSlice;
+    Headers::parse_message(message.as_bstr()).ok().map(|(h, body)| {
+        (
+            [
+                h.patchname,
+                h.author_name,
+                h.author_email,
+                h.author_date,
+                h.subject,
+                h.message_id,
+            ],
+            body.into(),
+        )
+    })
+}
